@@ -11,7 +11,6 @@ import (
 	"math/big"
 	"math/rand"
 	"net/http"
-	"os"
 	"reflect"
 	"sort"
 	"strings"
@@ -505,7 +504,7 @@ func basePayloads(rng *rand.Rand) map[string]any {
 	res := func(id string) map[string]any {
 		return map[string]any{
 			"type": "ak", "id": id,
-			"attributes": map[string]any{"kstring": "s", "pstring": nil, "kint8": 5, "puint64": 18446744073709551615.0,
+			"attributes": map[string]any{"kstring": "s", "pstring": nil, "kint8": 5, "puint64": json.Number("18446744073709551615"),
 				"kbool": true, "ktime": "2001-02-03T04:05:06Z", "kbytes": "YWI=", "pbytes": nil, "kuint16": 65535},
 			"relationships": map[string]any{
 				"o": map[string]any{"data": map[string]any{"type": "ak2", "id": "u"}, "links": map[string]any{"self": "/x"}, "meta": map[string]any{"k": 1}},
@@ -933,6 +932,14 @@ func codecOtherModes(mode string, rng *rand.Rand, stt *stats, w *evWriter, n int
 			stt.class("out:" + ev.Out)
 			stt.class("cls:" + ev.Cls)
 			stt.class("origin:" + origin)
+			if strings.HasPrefix(origin, "valid") {
+				stt.class("valid:" + ev.Out)
+			}
+			if origin == "valid-home" {
+				// a base payload fed to the entry point it is meant for must be accepted,
+				// or its mutations explore nothing behind the first refusal
+				stt.class("home:" + entry + ":" + ev.Out)
+			}
 			stt.distinct(entry + string(payload))
 			w.Emit(ev, c)
 		}
@@ -941,9 +948,20 @@ func codecOtherModes(mode string, rng *rand.Rand, stt *stats, w *evWriter, n int
 			tree := bases[name]
 			valid, _ := json.Marshal(tree)
 			corpus = append(corpus, valid)
+			home := map[string][]string{
+				"document": {"UnmarshalDocument", "NewRequestPOST", "NewRequestPATCH"}, "collection-document": {"UnmarshalDocument"},
+				"errors-document": {"UnmarshalDocument"}, "resource": {"UnmarshalResource", "UnmarshalPartialResource"},
+				"collection": {"UnmarshalCollection"}, "identifier": {"UnmarshalIdentifier"}, "identifiers": {"UnmarshalIdentifiers"},
+			}
 			for _, entry := range feedEntries {
+				origin := "valid"
+				for _, h := range home[name] {
+					if h == entry {
+						origin = "valid-home"
+					}
+				}
 				for _, impl := range []string{"soft", "wrap"} {
-					emit(impl, entry, "valid", valid)
+					emit(impl, entry, origin, valid)
 				}
 			}
 			muts := slotMutations(tree)
@@ -1158,21 +1176,21 @@ func mustB64(s string) string {
 	return string(b)
 }
 
-func codecReplayOther(mode string, raw json.RawMessage) {
+func codecRunOther(mode string, raw json.RawMessage) any {
 	switch mode {
 	case "roundtrip":
 		var c rtCase
 		must(json.Unmarshal(raw, &c))
-		os.Stdout.Write(jsonLine(runRoundTrip(c)))
+		return runRoundTrip(c)
 	case "robust":
 		var c feedCase
 		must(json.Unmarshal(raw, &c))
-		os.Stdout.Write(jsonLine(runFeed(c)))
+		return runFeed(c)
 	case "partial":
 		var c payCase
 		must(json.Unmarshal(raw, &c))
-		os.Stdout.Write(jsonLine(runPayload(c)))
-	default:
-		infra("unknown codec mode %q", mode)
+		return runPayload(c)
 	}
+	infra("unknown codec mode %q", mode)
+	return nil
 }
